@@ -105,7 +105,7 @@ def rule_X(ctx):
         kw = {'verbose': False} if has_verbose else {}
         try:
             return run(lambda: call(C, mval, **kw)), None
-        except (IndexError, KeyError, ZeroDivisionError, TypeError, ValueError, AttributeError, RecursionError, orders.Raised) as ex:
+        except orders.PROGRAM_ERRORS as ex:
             return None, '%s: %s' % (type(ex).__name__, str(ex)[:200])
 
     def judge(kind, n, cells, mname, mval, want_min, label, dtype='float'):
@@ -322,7 +322,7 @@ def rule_S(ctx):
             return rec, calls, res, None
         except orders.Unsupported as ex:
             raise shape_error('%s not interpretable: %s' % (entry.name, ex), entry.loc())
-        except (TypeError, IndexError, KeyError, ValueError, AttributeError, ZeroDivisionError, orders.Raised) as ex:
+        except orders.PROGRAM_ERRORS as ex:
             return rec, calls, None, '%s: %s' % (type(ex).__name__, ex)
 
     def cost_value(i, j):
